@@ -444,6 +444,20 @@ VF_MAIN
 #endif
 
 #ifdef VF_GROUP_C18
+# if !VF_DTLS
+    if (rc == SSL_PROCESS_DATA || rc == SSL_ALERT)
+    {
+        /* hand-off to matrixSslProcessedData (see dec13_harness.c) */
+        uint32 ctlen = ssl->rec.len + ssl->recordHeadLen;
+        VF_REACH("handoff");
+        if (ssl->flags & SSL_FLAGS_AEAD_R)
+        {
+            /* read direction: the explicit nonce is present iff NONCE_R */
+            ctlen += AEAD_TAG_LEN(ssl) + ((ssl->flags & SSL_FLAGS_NONCE_R) ? TLS_EXPLICIT_NONCE_LEN : 0);
+        }
+        VF_ASSERT((uint32) (buf - S_inbuf) == ctlen, "c18.consumed_equals_record_bookkeeping");
+    }
+# endif
     if (rc == SSL_PARTIAL)
     {
         VF_REACH("partial");
